@@ -152,6 +152,14 @@ func safetyFamily(tier string, amevs []int64) []*Job {
 			jobs = append(jobs, job(fp, per))
 		}
 	}
+	// failing ProcessBlock under anti-MEV (the library then waits for more Commits): first call per node fails
+	for _, a := range amevs {
+		if a >= 0 {
+			fb := scen("B14-block-fails-once-N4-"+amevName(a), 4, withAMEV(a), withK(2))
+			fb.FailBlk = 1
+			jobs = append(jobs, job(fb, per))
+		}
+	}
 	// validator counts that are not 3F+1 with a Byzantine primary (quorum arithmetic matters here)
 	for _, n := range []int{5, 6} {
 		b := primaryAt(start+1, 0, n)
